@@ -107,6 +107,7 @@ struct Writer {
     meta: std::io::BufWriter<std::fs::File>,
     origin: u64,
     pre_streams: u64,
+    record_ops: bool,
     runs: u64,
     events: u64,
 }
@@ -116,7 +117,7 @@ impl Writer {
         let r = &out.result;
         let finals: Vec<Value> = r.finals.iter().map(|(n, s, p)| json!({"name": n, "status": format!("{:?}", s), "pending": p})).collect();
         let reset = json!({"k":"reset","t":-1,"fn":"","fld":"","o":"","a":0,"b":0,"r":0,"ok":true,"obj":0,
-                           "x": {"scn": scn_id, "run": run_no, "origin": self.origin % crate::sched::LOG_MOD, "outcome": outcome_name(&r.outcome), "streams": self.pre_streams}});
+                           "x": {"scn": scn_id, "run": run_no, "origin": self.origin % crate::sched::LOG_MOD, "outcome": outcome_name(&r.outcome), "streams": self.pre_streams, "ops": self.record_ops}});
         writeln!(self.out, "{}", reset).unwrap();
         // side-car with what is needed to replay / explain the run (not read by TLC)
         let meta = json!({"scn": scn_id, "run": run_no, "line": self.events + 1, "outcome": outcome_name(&r.outcome), "choices": r.choices,
@@ -139,6 +140,7 @@ fn explore(scn: &Value, w: &mut Writer, summary: &mut Vec<Value>) {
     let ex = &scn["explore"];
     let mode = ex["mode"].as_str().unwrap_or("dfs");
     let record_ops = scn["record_ops"].as_bool().unwrap_or(true);
+    w.record_ops = record_ops;
     let mut runs = 0u64;
     let mut stalled = 0u64;
     let mut steplimit = 0u64;
@@ -245,7 +247,7 @@ fn main() {
             let input = std::fs::File::open(&args[2]).expect("scenarios file");
             let out = std::fs::File::create(&args[3]).expect("trace file");
             let meta = std::fs::File::create(format!("{}.runs", &args[3])).expect("runs file");
-            let mut w = Writer { out: std::io::BufWriter::new(out), meta: std::io::BufWriter::new(meta), origin: 0, pre_streams: 0, runs: 0, events: 0 };
+            let mut w = Writer { out: std::io::BufWriter::new(out), meta: std::io::BufWriter::new(meta), origin: 0, pre_streams: 0, record_ops: true, runs: 0, events: 0 };
             let mut summary = vec![];
             for line in std::io::BufReader::new(input).lines() {
                 let line = line.unwrap();
